@@ -2,13 +2,28 @@
 (* Trace validation for the REWRITE family. Event types:
      step  - one rule application on a clone-from-root            (C01 C02 C04 C06 C07)
      probe - can_apply_to / find_nodes / find_node on one tree     (C06) *)
-EXTENDS Rules, TLC, Json, IOUtils
+EXTENDS RulesImpl, TLC, Json, IOUtils
 Events == ndJsonDeserialize(IOEnv.TRACE_FILE)
 N == Len(Events)
 FV == IOEnv.F_VALUE = "1"
 FS == IOEnv.F_SOL = "1"
 FR == IOEnv.F_RT = "1"
-Verdict(e) == CASE e.typ = "step" -> StepVerdict(e, FV, FS, FR) [] e.typ = "probe" -> ProbeVerdict(e) [] e.typ = "print" -> PrintVerdict(e) [] e.typ = "reprobe" -> ReprobeVerdict(e) [] OTHER -> {"harness_unknown_event"}
+FI == IOEnv.F_IMPL = "1"
+\* drift of the real code from the implementation-shaped model (never alarmed): applicability and the tree that is built
+ImplDriftStep(e) ==
+  IF ~FI \/ e.outcome # "ok" \/ e.res = 0 \/ ~WFExpr(e.hb, e.work) \/ WFExprFailing(e.ha, e.res) # {} THEN {} ELSE
+  LET s == TermOf(e.hb, e.work)  o == TermOf(e.ha, e.res)  path == PathTo(e.hb, e.node)  ic == ImplCan(e.rule, e.opt, s, path) IN
+  IF ~AllConstsHaveValues(s) \/ ic = "unmodelled" THEN {"note_impl_unmodelled"}
+  ELSE IF ic = "no" THEN {"drift_impl_applicability"}
+  ELSE IF ~AllConstsHaveValues(o) THEN {"note_impl_unmodelled"}
+  ELSE IF NormC(ImplOut(e.rule, e.opt, s, path)) = NormC(o) THEN {} ELSE {"drift_impl_result"}
+ImplDriftProbe(e) ==
+  IF ~FI \/ e.exc # "" \/ ~WFExpr(e.hb, e.root) THEN {} ELSE
+  LET s == TermOf(e.hb, e.root)  io == InOrderNodes(e.hb, e.root) IN
+  IF ~AllConstsHaveValues(s) THEN {} ELSE
+  IF \A k \in 1..Len(io) : LET ic == ImplCan(e.rule, e.opt, s, PathTo(e.hb, io[k])) IN ic = "unmodelled" \/ (ic = "yes") = e.a1[k]
+  THEN {} ELSE {"drift_impl_probe"}
+Verdict(e) == CASE e.typ = "step" -> StepVerdict(e, FV, FS, FR) \cup ImplDriftStep(e) [] e.typ = "probe" -> ProbeVerdict(e) \cup ImplDriftProbe(e) [] e.typ = "print" -> PrintVerdict(e) [] e.typ = "reprobe" -> ReprobeVerdict(e) [] OTHER -> {"harness_unknown_event"}
 VARIABLES i, v
 Init == i \in 1..N /\ v = {"pending"}
 Next == v = {"pending"} /\ v' = Verdict(Events[i]) /\ UNCHANGED i
